@@ -64,6 +64,30 @@ def _run(tier, seed, replay=None):
                 variant(wd, "wu_unregfirst.cfg", [("UnregFirst = FALSE", "UnregFirst = TRUE")], "ReleaseRemoves")}
     wit = vlib.witnesses("WorkUnit", "WorkUnit_quick.cfg", ["W_NoCanceled", "W_NoRelease"] if tier == "quick" else ["W_NoSucceeded", "W_NoCanceled", "W_NoRelease", "W_NoKilled"], wd)
 
+    # remote-work protocol (RemoteUnit.tla): exhaustive parts in thorough only
+    remote = {}
+    if tier != "quick":
+        rr = vlib.tlc_must_pass("RemoteUnit", "RemoteUnit.cfg", wd, timeout=2400, heap="10g")
+        rl = vlib.tlc("RemoteUnit", "RemoteUnit_live.cfg", wd, timeout=2400, deadlock=False)
+        if not rl.ok:
+            raise vlib.Inconclusive("RemoteUnit liveness configuration failed (exit %s, violated=%s)" % (rl.exit, rl.violated))
+        rq = open(os.path.join(vlib.SPECS, "RemoteUnit_quick.cfg")).read()
+        rv = {}
+        for cname, repl, inv in (("StdoutFromZero", [("StdoutFromZero = FALSE", "StdoutFromZero = TRUE"), ("MaxOut = 1", "MaxOut = 2"),
+                                                     ('ClientOps = {"cancel", "release", "frelease"}', "ClientOps = {}")], "LocalOutputIsPrefix"),
+                                  ("ReleaseSkipsRemote", [("ReleaseSkipsRemote = FALSE", "ReleaseSkipsRemote = TRUE")], "ReleaseRemovesBoth")):
+            t = rq
+            for a, b in repl:
+                assert a in t, a
+                t = t.replace(a, b)
+            x = vlib.tlc("RemoteUnit", "ru_%s.cfg" % cname, wd, timeout=1200, cfg_text=t)
+            if x.violated != inv:
+                raise vlib.Inconclusive("RemoteUnit variant %s did not violate %s (violated=%s exit %s)" % (cname, inv, x.violated, x.exit))
+            rv[cname] = inv
+        rw = vlib.witnesses("RemoteUnit", "RemoteUnit_quick.cfg", ["W_NoReconnect", "W_NoCancelRetry", "W_NoReleaseWithEGone", "W_NoGaveUp", "W_NoQuietMirror", "W_NoQuietCancel"], wd)
+        remote = {"tlc": {"spec": "RemoteUnit.tla", "cfg": "RemoteUnit.cfg", "generated": rr.generated, "distinct": rr.distinct, "wall_s": round(rr.wall, 1)},
+                  "liveness": {"cfg": "RemoteUnit_live.cfg", "distinct": rl.distinct, "properties": ["OutputEventuallyComplete", "CancelEventuallyReachesE"]},
+                  "variants_violated": rv, "witnesses": rw}
     rec = vlib.build_receptor()
     vd = vlib.build_harness("vd")
     inproc = vlib.build_harness("receptor-inproc")   # cmd/receptor-cl + one in-process work type on BaseWorkUnit
@@ -72,7 +96,9 @@ def _run(tier, seed, replay=None):
         if seed >= 100:
             seed //= 100
     hist, ops = (3, 14) if tier == "quick" else (16, 30)
-    res = vlib.harness_json(vd, ["c13", "-bin", rec, "-dir", os.path.join(wd, "runs"), "-seed", str(seed), "-histories", str(hist), "-ops", str(ops), "-inproc-bin", inproc],
+    res = vlib.harness_json(vd, ["c13", "-bin", rec, "-dir", os.path.join(wd, "runs"), "-seed", str(seed), "-histories", str(hist), "-ops", str(ops), "-inproc-bin", inproc,
+                                  "-rsched", "cut-during-monitoring,release-while-disconnected,release-with-executor-gone" if tier == "quick" else
+                                  "cut-during-monitoring,cancel-while-disconnected,cancel-then-restart-submitter,release-while-disconnected,release-with-executor-gone"],
                             wd, timeout=3000, name="vd_c13")
     for viol in res["violations"]:
         v.violation(viol["sig"], viol["what"], viol["replay"])
@@ -105,6 +131,16 @@ def _run(tier, seed, replay=None):
                                 {"trace": ex["unit_trace_file"], "seed": seed})
             else:
                 raise vlib.Inconclusive("TLC failed on the unit rewrite traces (exit %s):\n%s" % (t.exit, t.output[-2000:]))
+    rt = {}
+    if ex.get("rw_trace_events"):
+        t = vlib.tlc("RemoteUnitTrace", "RemoteUnitTrace.cfg", wd, timeout=2400, workers=1, files=[ex["rw_trace_file"]], heap="6g")
+        rt = {"events": ex["rw_trace_events"], "accepted": t.ok, "states": t.distinct, "wall_s": round(t.wall, 1)}
+        if not t.ok:
+            if "Postcondition RTraceAccepted" in t.output or t.violated:
+                v.violation("C13:remote-trace-rejected", "TLC rejected the rw_* event stream of the remote fault schedules (violated=%s): not a behaviour of RemoteUnit.tla" % t.violated,
+                            {"trace": ex["rw_trace_file"], "seed": seed})
+            else:
+                raise vlib.Inconclusive("TLC failed on the remote protocol traces (exit %s):\n%s" % (t.exit, t.output[-2000:]))
     c = res["counters"]
     if c.get("cancel_race_completion_won", 0) == 0:
         v.notes.append("cancel-vs-completion: the completion branch was not taken in %d attempts" % c.get("cancel_race_attempts", 0))
@@ -116,6 +152,7 @@ def _run(tier, seed, replay=None):
                 "observed in this run",
         "samples": res["samples"][:3], "exhaustive": False,
         "state_paths": ex.get("state_paths"), "counters": c, "trace_validation": tv, "unit_rewrite_trace_validation": ut,
+        "remote_protocol": remote, "remote_protocol_trace_validation": rt, "remote_schedules": ex.get("remote_schedules"),
         "tlc": [{"spec": "WorkUnit.tla", "cfg": cfg, "generated": r.generated, "distinct": r.distinct, "depth": r.depth, "wall_s": round(r.wall, 1)},
                 {"spec": "WorkUnit.tla", "cfg": "WorkUnit_ids.cfg", "generated": r2.generated, "distinct": r2.distinct, "depth": r2.depth, "wall_s": round(r2.wall, 1)}],
         "variants_violated": variants, "witnesses": wit, "notes": v.notes,
